@@ -170,19 +170,7 @@ section
 variable {F : Type} (fo : FloatOps F) (tb : Table)
 
 def mirrorIcon (base : Str) (i : IconSpec) : Except FErr IconM :=
-  let int (o : Option Str) : Except FErr Int := match o with
-    | none => .ok 0
-    | some s => match pyInt? s with
-        | some n => .ok n
-        | none => .error (.raw .valueError)
-  match int i.width with
-  | .error e => .error e
-  | .ok w => match int i.height with
-    | .error e => .error e
-    | .ok h => match int i.depth with
-      | .error e => .error e
-      | .ok dp => .ok { mimetype := i.mimetype.getD [], width := w, height := h, depth := dp
-                        url := absoluteUrl base (i.url.getD []) }
+  iconOf base i.mimetype i.width i.height i.depth i.url
 
 /-- evented: the attribute wins over the element; only the literal `yes` is true -/
 def sendEventsOf (v : VarSpec) : Bool :=
@@ -192,57 +180,37 @@ def sendEventsOf (v : VarSpec) : Bool :=
       | some e => e == ['y', 'e', 's']
       | none => false
 
+/-- the variable the description declares: name (stripped), type, evented flag, and minimum /
+    maximum / allowed values / default read with the type's own converter (`varOf`) -/
 def mirrorVar (nonStrict : Bool) (v : VarSpec) : Except FErr (VarM F) :=
-  match v.dataType with
-  | none => .error .upnpError
-  | some dt => match tb.row? dt with
-    | none => .error .upnpError
-    | some row =>
-      let range : Option (Option Str × Option Str) := v.range.map fun r => (r.1, r.2.1)
-      let allowed : Option (List Str) := v.allowed.map fun l => l.filter (fun s => !s.isEmpty)
-      match mkSchema fo tb row (!nonStrict) { range := range, allowed := allowed, default := v.default } with
-      | .error x => .error (.raw x)
-      | .ok _ =>
-        let inC := coercePython fo tb row
-        .ok { name := stripWs (v.name.getD []), dataType := dt, sendEvents := sendEventsOf v
-              min := R.ofExcept (optM inC (range.bind (·.1)))
-              max := R.ofExcept (optM inC (range.bind (·.2)))
-              allowed := R.ofExcept (mapM' inC (allowed.getD []))
-              default := R.ofExcept (optM inC v.default) }
+  varOf fo tb nonStrict v.seAttr v.seElem v.dataType v.default v.name
+    (v.range.map fun r => (r.1, r.2.1)) (v.allowed.map fun l => l.filter (fun s => !s.isEmpty))
 
 /-- arguments are bound by the NAME of their related state variable -/
 def mirrorAction (vars : List (VarM F)) (a : ActionSpec) : Except FErr ActM :=
-  let complete := a.args.filterMap fun g => match g.name, g.direction, g.related with
-    | some n, some d, some r => some (n, d, r)
-    | _, _, _ => none
-  match mapE (fun (g : Str × Str × Str) => match vars.find? (·.name == g.2.2) with
-      | some v => Except.ok ({ name := g.1, direction := g.2.1, related := v.name, relatedType := v.dataType } : ArgM)
-      | none => Except.error FErr.keyError) complete with
-  | .ok args => .ok { name := a.name.getD ['n','a','m','e','l','e','s','s'], args := args }
-  | .error e => .error e
+  actionOf (fun r => vars.find? (·.name == r)) a.name
+    (a.args.filterMap fun g => completeArg g.name g.direction g.related)
+
+/-- variables and actions the service document declares; a corrupted document is refused in strict
+    mode and gives an empty service in non-strict mode -/
+def mirrorBody (nonStrict : Bool) (doc : DocSpec) : Except FErr (List (VarM F) × List ActM) :=
+  match doc with
+  | .status _ => .error .response
+  | .unparsable => if nonStrict then .ok ([], []) else .error .xmlParse
+  | .foreign _ _ => if nonStrict then .ok ([], []) else .error .xmlContent
+  | .scpd sp =>
+      match sp.vars with
+      | none => if nonStrict then .ok ([], []) else .error .xmlContent   -- incomplete: empty service
+      | some l => match mapE (mirrorVar fo tb nonStrict) l with
+        | .error e => .error e
+        | .ok vars => match (match sp.actions with
+            | none => Except.ok []
+            | some l => mapE (mirrorAction vars) l) with
+          | .error e => .error e
+          | .ok acts => .ok (vars, acts)
 
 def mirrorService (nonStrict : Bool) (base : Str) (s : ServiceSpec) : Except FErr (SvcM F) :=
-  let body : Except FErr (List (VarM F) × List ActM) :=
-    match s.doc with
-    | .status _ => .error .response
-    | .unparsable => if nonStrict then .ok ([], []) else .error .xmlParse
-    | .foreign _ _ => if nonStrict then .ok ([], []) else .error .xmlContent
-    | .scpd sp =>
-        match sp.vars with
-        | none => if nonStrict then .ok ([], []) else .error .xmlContent   -- incomplete: empty service
-        | some l => match mapE (mirrorVar fo tb nonStrict) l with
-          | .error e => .error e
-          | .ok vars => match (match sp.actions with
-              | none => Except.ok []
-              | some l => mapE (mirrorAction vars) l) with
-            | .error e => .error e
-            | .ok acts => .ok (vars, acts)
-  match body with
-  | .error e => .error e
-  | .ok (vars, acts) =>
-    .ok { serviceId := s.serviceId.getD [], serviceType := s.serviceType.getD []
-          controlUrl := urljoin base (s.controlURL.getD []), eventSubUrl := urljoin base (s.eventSubURL.getD [])
-          scpdUrl := urljoin base (s.scpdURL.getD []), vars := vars, actions := acts }
+  svcOf base s.serviceId s.serviceType s.controlURL s.eventSubURL s.scpdURL (mirrorBody fo tb nonStrict s.doc)
 
 def mirrorInfo : List Tag → List (Option Str) → List (Option Str)
   | t :: ts, o :: os => (match o with | some s => some s | none => infoDefault t) :: mirrorInfo ts os
@@ -326,6 +294,16 @@ def IconSpec.wf (i : IconSpec) : Bool :=
   let isInt (o : Option Str) : Bool := match o with | some s => (pyInt? s).isSome | none => true
   isInt i.width && isInt i.height && isInt i.depth
 
+end
+
+/-- the device types of a list of (embedded) devices -/
+def deviceTypes : List DeviceSpec → List Str
+  | [] => []
+  | .mk info _ _ _ :: r => (info.head?.getD none).getD [] :: deviceTypes r
+
+section
+variable {F : Type} (fo : FloatOps F) (tb : Table)
+
 mutual
 def DeviceSpec.wf (base : Str) : DeviceSpec → Bool
   | .mk info icons svcs emb =>
@@ -338,9 +316,6 @@ def DeviceSpec.wf (base : Str) : DeviceSpec → Bool
 def wfs (base : Str) : List DeviceSpec → Bool
   | [] => true
   | d :: r => d.wf base && wfs base r
-def deviceTypes : List DeviceSpec → List Str
-  | [] => []
-  | .mk info _ _ _ :: r => (info.head?.getD none).getD [] :: deviceTypes r
 end
 
 /-- the SCPD URLs resolve to pairwise distinct documents, none of them the description itself -/
